@@ -211,7 +211,7 @@ pub fn run(ctx: &mut Ctx) {
     for (n, ok) in r2::selftest() {
         ctx.selftest(&n, ok);
     }
-    ctx.require(&["valid_decrypts", "bitflip_pc_byte", "bitflip_c1", "bitflip_c2_c3", "truncated_inside_c1", "truncated_inside_hash", "truncated_body", "pc_byte_illegal", "offcurve_y_plus_1", "invalid_curve_point", "coordinate_x_ge_p_alias", "coordinate_x_eq_p", "coordinate_x_eq_p_alias_of_zero", "compressed_nonresidue_x", "c1_other_point", "c1_negated", "c3_zeroed", "extended"]);
+    ctx.require(&["valid_decrypts", "bitflip_pc_byte", "bitflip_c1", "bitflip_c2_c3", "truncated_inside_c1", "truncated_inside_hash", "truncated_body", "pc_byte_illegal", "offcurve_y_plus_1", "invalid_curve_point", "coordinate_x_ge_p_alias", "coordinate_x_eq_p", "coordinate_x_eq_p_alias_of_zero", "compressed_nonresidue_x", "c1_other_point", "c1_negated", "c3_zeroed", "extended", "crafted_valid_c1"]);
     let c = r2::curve();
     let nsamples = ctx.n(24, 600);
     let mut prng = ctx.prng("samples");
@@ -241,6 +241,36 @@ pub fn run(ctx: &mut Ctx) {
         if first {
             first = false;
             ctx.sample(json!({"sample_ciphertext": {"layout": layout_name(lay.0, lay.1), "d": hex::encode(r2::b32(&s.d)), "msg": hx(&s.msg), "ct": hx(&s.ct)}, "faults": "every bit flip, every truncation, all 253+ illegal PC bytes, off-curve / invalid-curve / >=p / non-residue C1 with a valid tag, substituted C1, zeroed C3, swapped order"}));
+        }
+    }
+    // --- genuine ciphertexts whose C1 is crafted so that an addition of the on-curve test lands on a carry / reduction
+    // boundary (sm2x::crafted_points): the untouched one must decrypt, and the whole fault space is applied around it
+    {
+        let mut pc = ctx.prng("crafted_pts");
+        let reps = ctx.n(1, 4);
+        for _ in 0..reps {
+            let sub = pc.next();
+            let mut q = Prng::new(sub, "cp");
+            for (name, pt) in crafted_points_sharded(&mut q, 1, ctx.shard as u64, ctx.nshards as u64) {
+                let d = rand_scalar(&mut q, &(&c.n - 1u32));
+                let mlen = 1 + q.below(40) as usize;
+                let msg = q.bytes(mlen);
+                let lay = LAYOUTS[q.below(4) as usize];
+                let Some((c2, c3)) = r2::craft_for_point(&d, &pt, &msg) else { continue };
+                if c2 == msg {
+                    continue;
+                }
+                let ct = assemble(&r2::encode(&pt, lay.1), &c2, &c3, lay.0);
+                if r2::decrypt(&d, &ct, lay.0, lay.1).as_deref() != Some(&msg[..]) {
+                    ctx.violation("harness:crafted-c1-ciphertext-rejected-by-reference", json!({"class": name}));
+                    continue;
+                }
+                let Some(sk) = lib_sk(&d) else { continue };
+                ctx.class("crafted_valid_c1");
+                ctx.class(&format!("crafted:{}", name));
+                let s = Sample { d, sk, msg, ct, lay };
+                fault_space(ctx, &s, &mut q);
+            }
         }
     }
     ctx.exhaustive("every single-bit flip and every truncation length of each sample ciphertext", true);
